@@ -55,7 +55,8 @@ PROPS["C04"] = dict(
           "websocket session - oracle: the same request with the hostile value replaced by a benign one (failing fields null with one "
           "error each at their path, their resolvers not called, all other values equal, recover hook once per panic; a serialisation "
           "panic fails the response as a whole with a well-formed error body), followed by the benign request again (the process keeps "
-          "serving); for worker_limit 0/1/2; a process crash is a violation (journalled case)",
+          "serving); for worker_limit 0/1/2; a process crash is a violation (journalled case)."
+          " An operation that has not answered 20 s after a fault was injected is a violation of its own (stable goroutine witness required), and failure storms (many faults in one operation, the same failing value reached through several aliases) are drawn; a Go type used for a user scalar fails on demand in marshal and unmarshal, over POST, GET and websocket.",
     note="single faults are exhaustive per generated operation, operations are sampled; reference executor and gqlparser trusted; "
          "subscription events are covered as far as C11 goes (resolver error/panic per operation)",
     technique="fault injection enumerated over generated operations (rapid) with a reference-executor oracle",
@@ -73,7 +74,8 @@ PROPS["C06"] = dict(
     claim="metamorphic testing under the Go race detector: every generated (operation, plan) pair is executed under 8 harness-owned "
           "schedules (none, yields, delays, reversed sibling completion through gates, mixed) on servers generated with "
           "worker_limit 0/1/2; data bytes and error multiset must be identical across schedules and equal to the reference "
-          "executor; mutation root fields must be strictly serial in the invocation log; any race report fails the check",
+          "executor; mutation root fields must be strictly serial in the invocation log; any race report fails the check."
+          " Storms of failures and twin paths (the same resolver reached through two aliases) are scheduled as well.",
     note="schedules are sampled and steered, not enumerated; the race detector only sees executed paths",
     technique="metamorphic property-based testing (rapid) across induced schedules + Go race detector as additional oracle",
     rule="evaluation = one execution under one schedule; non-trivial = the schedules produced >=2 distinct resolver completion orders "
@@ -164,7 +166,8 @@ PROPS["C02"] = dict(
           "and argument / input-field directives (@chk on arguments, input fields, nested and listed input objects): with passing "
           "directives the resolver receives exactly what a directive-free twin field receives, every position that carries a value runs "
           "its directive exactly once and no other position does (omitted/null positions are optional as the option says), and a "
-          "directive that fails or panics leaves the resolver uncalled with one error at the guarded position",
+          "directive that fails or panics leaves the resolver uncalled with one error at the guarded position."
+          " The same cases are also sent as HTTP POST requests to a handler that served another request first (state kept between requests shows as a difference from the direct execution).",
     note="gqlparser validates literals and variables first; where gqlgen/gqlparser are more lenient than the spec the case is in the "
          "lenient class (only 'equal or error' and 'no number silently changed' are asserted there)",
     technique="property-based differential testing (rapid) against a reference coercion algorithm; three-valued expectations",
@@ -183,7 +186,8 @@ PROPS["C15"] = dict(
           "histories over POST and GET with an inspectable evicting cache; after every step: hash-only executes exactly the registered "
           "text (seen through the universal resolver's log) or PersistedQueryNotFound (only if the cache does not hold the hash), "
           "mismatches execute and register nothing, and every cache entry satisfies sha256(text)=hash. "
-          "The text alphabet contains two texts that differ only in the case of a letter inside a string literal, and the server may cache parsed documents in an lru.LRU beside the APQ cache (as NewDefaultServer does)",
+          "The text alphabet contains two texts that differ only in the case of a letter inside a string literal, and the server may cache parsed documents in an lru.LRU beside the APQ cache (as NewDefaultServer does)."
+          " A request may carry a hash with blank text.",
     note="the alphabet is small by design; the cache is the harness's recording cache (gqlgen's lru is exercised by C03/C07)",
     technique="exhaustive bounded enumeration + model-based state-machine testing (rapid) against a reference model",
     rule="evaluation = one request; a sequence is non-trivial if it contains a registration, a later hash-only hit, and a mismatch or "
@@ -201,7 +205,8 @@ PROPS["C09"] = dict(
           "permutations and parse/validation/variable damage, over GET, POST, application/graphql and urlencoded; an independent "
           "statement of the negotiation and status rules gives the expected Content-Type, status, refusal of non-queries over GET, "
           "the operation that may run, strict-JSON GraphQL body shape, and 'executed => 200' / 'non-2xx => nothing ran'. "
-          "Half of the servers cache parsed documents (lru), and a request may be repeated up to three times in a row: every answer has to satisfy the contract",
+          "Half of the servers cache parsed documents (lru), and a request may be repeated up to three times in a row: every answer has to satisfy the contract."
+          " Requests may name their document by persisted-query hash (registered earlier in the history or not), with a query cache, and may be repeated.",
     note="application/graphql and urlencoded transports do not negotiate (configured header or application/json), as their code documents",
     technique="model-based property testing (rapid) against an explicit contract model; resolver log as execution witness",
     rule="evaluation = one HTTP request; non-trivial = multi-operation document, non-default Accept, or GET; distinct by the full request",
@@ -218,7 +223,8 @@ PROPS["C10"] = dict(
           "from a grammar (five variable shapes, files shared between paths, both sides of MaxMemory/MaxUploadSize, and ten structural "
           "defects incl. 25 hostile map paths); oracle: the recover hook never runs (resolvers never panic here), no panic escapes "
           "ServeHTTP, the answer is a strict-JSON GraphQL response, a private TMPDIR is empty afterwards, oversized bodies run nothing, "
-          "and well-formed uploads deliver exact bytes/filename/content type to every mapped path through independently readable readers; structural mutation of a valid map path of the very request (index equal to the list length, shorter lists, wrong kinds, extra / missing segments); and websocket sessions fed frames of any type (text, binary, ping, pong, close) and payload (protocol messages with members of the wrong JSON type, null, truncated, nested thousands deep, random bytes, one byte flipped) under both subprotocols, before and after the handshake: the recover hook never runs, the process lives, every server frame is a JSON message object and a fresh session is acknowledged afterwards",
+          "and well-formed uploads deliver exact bytes/filename/content type to every mapped path through independently readable readers; structural mutation of a valid map path of the very request (index equal to the list length, shorter lists, wrong kinds, extra / missing segments); and websocket sessions fed frames of any type (text, binary, ping, pong, close) and payload (protocol messages with members of the wrong JSON type, null, truncated, nested thousands deep, random bytes, one byte flipped) under both subprotocols, before and after the handshake: the recover hook never runs, the process lives, every server frame is a JSON message object and a fresh session is acknowledged afterwards."
+          " Invalid documents are also sent twice to a server with a query cache (the second answer must equal the first), and websocket frames are mutated the same way.",
     note="websocket frames are covered by C11's state machine; native byte-level fuzz targets are not part of the quick tier",
     technique="grammar-based and mutation-based property testing (rapid) with a crash/recover-hook/round-trip oracle",
     rule="evaluation = one request; non-trivial = a request with a structural defect that reaches the transport's decoding stage, or a "
@@ -239,7 +245,8 @@ PROPS["C03"] = dict(
           "their own processes. Oracle: a rejected request produces no interceptor, directive or resolver event and errors only; an "
           "accepted one produces every hook exactly once per operation / response / root field / field (field positions from the "
           "reference executor), in lifecycle order, first-registered outermost; resolvers as the reference says; no race report. "
-          "A third of the histories go through handler.Server with the POST transport instead of the executor API: each request is a JSON body that leaves out the members it does not need, and the damages include a required variable that is left out entirely or sent as null",
+          "A third of the histories go through handler.Server with the POST transport instead of the executor API: each request is a JSON body that leaves out the members it does not need, and the damages include a required variable that is left out entirely or sent as null."
+          " The same request histories are also served over the streaming transports (SSE and multipart/mixed, registered before POST as documented) with the same gate and hook-order expectations.",
     note="which requests are invalid is known by construction, never by re-validating in process; interleavings are sampled",
     technique="model-based property testing (rapid) of hook histories + Go race detector",
     rule="evaluation = one request; a history is non-trivial if it has >=1 rejected and >=1 accepted request and >=2 extensions of which "
@@ -259,7 +266,8 @@ PROPS["C07"] = dict(
           "body; every answer (status, Content-Type, body bytes) must equal the answer of a fresh server whose APQ cache holds exactly "
           "the registrations the model says preceded it; the same pools are replayed from 2-8 goroutines under the race detector. "
           "A request with a wrong persisted-query hash claims the hash of another text of the pool, so that a later hash-only request for that text shows whether the rejected request left memory. "
-          "Websocket: up to six operations (queries, mutations, subscriptions, invalid ones) are started back to back on one connection of a long-lived server; each must receive, under its own id, exactly the frames a fresh server sends when it runs that operation alone on a connection of its own, and no frame may carry an id nobody started",
+          "Websocket: up to six operations (queries, mutations, subscriptions, invalid ones) are started back to back on one connection of a long-lived server; each must receive, under its own id, exactly the frames a fresh server sends when it runs that operation alone on a connection of its own, and no frame may carry an id nobody started."
+          " Transports may be configured with ResponseHeaders (each response must carry exactly the configured set, whatever ran before it), and a websocket session multiplexes operations of the same pool.",
     note="whether sync.Pool hands the same object to the next request is up to the runtime; websocket sessions are covered by C11",
     technique="differential / metamorphic history testing (rapid) against a fresh-server oracle + Go race detector",
     rule="evaluation = one request compared with a fresh server; non-trivial = a request whose predecessor on the same transport and text "
@@ -280,7 +288,8 @@ PROPS["C12"] = dict(
           "strict JSON equal to the script, no comment inside an event, one final 'complete'; resp. parts of strict JSON, initial then "
           "incremental payloads flattened in order, hasNext true on all but the last part, closing boundary exactly once and last; the "
           "Go race detector watches the keep-alive / aggregator goroutines; after a disconnect no transport goroutine may remain parked. "
-          "Payload data, labels and error messages are generated from hostile chunks (format verbs, line ends, 'data:' / 'event:' keywords, boundaries, quotes, control characters)",
+          "Payload data, labels and error messages are generated from hostile chunks (format verbs, line ends, 'data:' / 'event:' keywords, boundaries, quotes, control characters)."
+          " Servers generated from /repo's templates stream @defer responses through both streaming transports under the shared @defer oracle (every part parsed off the wire: boundaries, hasNext, closing delimiter / complete event).",
     note="timings are sampled; the race detector reports unsynchronised writers on any executed path",
     technique="property-based testing (rapid) with independent stream parsers as oracle + Go race detector",
     rule="evaluation = one streamed response; non-trivial = >=2 payloads and a keep-alive or aggregator tick fell between two payloads "
@@ -325,7 +334,8 @@ PROPS["C16"] = dict(
           "re-parsed as GraphQL constants, each element's own deprecation, interfaces of objects and interfaces, possible object "
           "types, directive locations/arguments/repeatability); with introspection disabled six query shapes hiding __schema/__type "
           "behind aliases, fragments and variables must yield null plus an error and no schema type name in the data. "
-          "With introspection disabled every hidden field must be null with an error of its own, including __type lookups of names that do not exist; and on the federation probes the _service field is checked over histories of requests with introspection enabled and disabled (aliases, fragments, variables)",
+          "With introspection disabled every hidden field must be null with an error of its own, including __type lookups of names that do not exist; and on the federation probes the _service field is checked over histories of requests with introspection enabled and disabled (aliases, fragments, variables)."
+          " Introspection may be disabled again by a later operation-context mutator after an earlier one enabled it (and the reverse): the last writer decides, per request.",
     note="gqlparser's schema loader is the reference for what the SDL means; the federation _service field is covered by C20",
     technique="round-trip property testing (rapid) with schema generation from a grammar",
     rule="evaluation = one (schema, query shape, enabled/disabled) case; non-trivial = the schema has a deprecated argument or input field "
@@ -343,7 +353,8 @@ PROPS["C17"] = dict(
           "vectors over every documented boolean option, both exec layouts, three resolver layouts, worker_limit and random per-field "
           "resolver: true; each case runs gqlgen's generator from /repo's working tree in its own process, then go build and go vet of "
           "executor, models, resolver stubs and stub file; a non-zero exit, a panic, or a compile/vet error is a violation. "
-          "A third of the cases add an object bound to a user-written Go struct (directly or through autobind) whose fields several schema fields share through fieldName aliases and names that differ only in case",
+          "A third of the cases add an object bound to a user-written Go struct (directly or through autobind) whose fields several schema fields share through fieldName aliases and names that differ only in case."
+          " Inputs may be bound to map[string]interface{}, objects to user-written Go types (explicit binding and autobind, including autobind of the generated package itself), schema files may share one base name in different directories, and every project is generated a second time on its own output.",
     note="96 (quick) / 800 (thorough) points in an enormous space, weighted towards the listed naming patterns; shrinking re-generates",
     technique="property-based testing (rapid) with grammar-based schema generation; oracle = generator exit status + Go type checker",
     rule="evaluation = one generation + build + vet; non-trivial = the schema uses >=3 of: interface-implements-interface, union, recursive "
@@ -359,7 +370,8 @@ PROPS["C18"] = dict(
           "files, random option vector incl. both exec layouts and three resolver layouts) the generator runs five times in separate "
           "processes (fresh map seeds) with GOMAXPROCS 1/16/2/16/3, started from the project root and from a nested sub-directory, on a "
           "clean tree and on a tree that still contains the previous output (resolver files included); the SHA-256 of every generated "
-          "file must be identical across all runs, so regeneration on a freshly generated tree is a no-op",
+          "file must be identical across all runs, so regeneration on a freshly generated tree is a no-op."
+          " A third of the multi-file projects keep their schema files under one base name in different directories (merged into one generated file by the follow-schema layouts), each file declaring directives of executable locations.",
     note="map-order bugs surface with probability < 1 per run; five fresh processes per project bound the miss probability, they do not remove it",
     technique="metamorphic property testing (rapid): repeated generation in separate processes, hash-equality oracle",
     rule="evaluation = one generator run; a project is non-trivial if it has >=2 schema files and a follow-schema layout (exec or resolver); "
@@ -380,7 +392,8 @@ PROPS["C19"] = dict(
           "body token stream, doc text, result names and every import their body uses; bodies of removed/renamed resolvers and all "
           "helper declarations are still present in that run's output; every file parses; and when only fields were added to files "
           "holding only resolver methods, a package that compiled before compiles after. "
-          "A third of the schemas also have Mutation and Subscription roots (channel-valued resolvers), and resolver.omit_template_comment is drawn",
+          "A third of the schemas also have Mutation and Subscription roots (channel-valued resolvers), and resolver.omit_template_comment is drawn."
+          " Doc comments above resolver methods may span several paragraphs; Mutation and Subscription roots, dot imports and omit_template_comment are drawn as well.",
     note="bodies are never empty (gqlgen documents an empty body as 'not implemented'); doc comments are plain // comments",
     technique="model-based state-machine property testing (rapid) with a token-stream round-trip oracle",
     rule="evaluation = one regeneration; a history is non-trivial if a regeneration follows both an edit and an evolution and some body has "
@@ -400,7 +413,8 @@ PROPS["C20"] = dict(
           "completion; entity resolvers stamp each entity with the key they were called with, so the model can say, per index, which "
           "entity (or null) must stand there, that a failing representation is reported, that no failure changes another element, and "
           "that the @requires field comes from the same representation; run under the race detector; an unrecovered panic is a violation. "
-          "One entity has a composite first key and a second key; a generic generator makes every key field independently present, null or absent; vector x1 generates with federation explicit_requires and a harness-written populator",
+          "One entity has a composite first key and a second key; a generic generator makes every key field independently present, null or absent; vector x1 generates with federation explicit_requires and a harness-written populator."
+          " A Shipment entity has two @requires selections whose Go names coincide (nested crate { weight } and flat crateWeight) beside a three-level nested one, checked in the default, explicit_requires and computed_requires modes.",
     note="the entity_resolver_multi package option named in the property text does not exist at the pinned commit; batch resolvers come "
          "from the @entityResolver(multi: true) directive; explicit_requires is covered by vector x1 (the harness writes the user's populator, which copies the @requires field "
          "from the representation it is handed); computed_requires by vector x2 (the @requires fields are resolvers that receive the required fields of their representation; the harness's resolvers return their sum, so the response shows which representation was handed over); for batch groups a failing member nulls its whole (type, key) group (the documented GetMany contract)",
